@@ -120,6 +120,20 @@ func ruleQuorumShape() *Rule {
 					}
 				}
 				out = append(out, ob3)
+				// 4. ... and the one voter must be THIS node: a leader demoted to non-voter (AddServer(self, false)) in a
+				// configuration with one other voter would otherwise confirm its own heartbeat rounds and commit alone,
+				// while the real voter elects itself and acknowledges writes the old leader never sees.
+				ob4 := Obligation{Rule: id, Construct: "the single voter of the shortcut is this node in (*Raft).isSingleServerCluster", Pos: p.Pos(single.Pos())}
+				switch selfVoterImplied(p, sfr, single) {
+				case 1:
+					ob4.Verdict, ob4.Detail = Discharged, "every true result implies r.configuration.IsVoter[r.id]"
+				case 0:
+					ob4.Verdict = Violated
+					ob4.Detail = "isSingleServerCluster can return true although this node is not a voter: a (demoted) non-voting leader beside one voter treats its own heartbeat round as confirmed by a quorum and serves linearizable reads / commits without any reply, while the only voter may have elected itself and acknowledged newer writes"
+				default:
+					ob4.Verdict, ob4.Detail = Undecided, "how the result depends on r.configuration.IsVoter[r.id] was not recognised"
+				}
+				out = append(out, ob4)
 			}
 			return out
 		},
@@ -319,6 +333,102 @@ func countedCollection(p *Program, fr *Frame, v ssa.Value) (string, bool, string
 		}
 	}
 	return src, guarded, ""
+}
+
+// selfVoterImplied decides whether every true result of the bool function fn implies r.configuration.IsVoter[r.id]:
+// 1 yes, 0 no (some path returns true without consulting it), -1 not recognised.
+func selfVoterImplied(p *Program, fr *Frame, fn *ssa.Function) int {
+	isSelf := func(v ssa.Value) bool {
+		if ex, ok := v.(*ssa.Extract); ok && ex.Index == 0 {
+			v = ex.Tuple
+		}
+		l, ok := v.(*ssa.Lookup)
+		return ok && p.Canon(fr, l.X).S == "r.configuration.IsVoter" && p.Canon(fr, l.Index).S == "r.id"
+	}
+	// blocks in which the lookup is known true: dominated by the true edge of `if lookup` / false edge of `if !lookup`
+	var knownTrue []*ssa.BasicBlock
+	found := false
+	for _, b := range fn.Blocks {
+		for _, in := range b.Instrs {
+			if v, ok := in.(ssa.Value); ok && isSelf(v) {
+				found = true
+			}
+		}
+		iff, ok := b.Instrs[len(b.Instrs)-1].(*ssa.If)
+		if !ok {
+			continue
+		}
+		c, edge := iff.Cond, 0
+		if u, ok := c.(*ssa.UnOp); ok && u.Op == token.NOT {
+			c, edge = u.X, 1
+		}
+		if isSelf(c) && len(b.Succs[edge].Preds) == 1 {
+			knownTrue = append(knownTrue, b.Succs[edge])
+		}
+	}
+	if !found {
+		return 0
+	}
+	under := func(b *ssa.BasicBlock) bool {
+		for _, k := range knownTrue {
+			if k.Dominates(b) {
+				return true
+			}
+		}
+		return false
+	}
+	seen := map[ssa.Value]bool{}
+	var implied func(v ssa.Value, at *ssa.BasicBlock) int
+	implied = func(v ssa.Value, at *ssa.BasicBlock) int {
+		if under(at) || isSelf(v) {
+			return 1
+		}
+		switch x := v.(type) {
+		case *ssa.Const:
+			if x.Value != nil && x.Value.String() == "false" {
+				return 1
+			}
+			return 0
+		case *ssa.Phi:
+			if seen[x] {
+				return 1
+			}
+			seen[x] = true
+			r := 1
+			for i, e := range x.Edges {
+				switch implied(e, x.Block().Preds[i]) {
+				case 0:
+					return 0
+				case -1:
+					r = -1
+				}
+			}
+			return r
+		case *ssa.BinOp:
+			if x.Op == token.AND { // non-short-circuit a & b is not valid on bools; kept for completeness
+				if implied(x.X, at) == 1 || implied(x.Y, at) == 1 {
+					return 1
+				}
+			}
+			// a bare comparison returned as the result: true without the lookup
+			return 0
+		}
+		return -1
+	}
+	res := 1
+	for _, b := range fn.Blocks {
+		ret, ok := b.Instrs[len(b.Instrs)-1].(*ssa.Return)
+		if !ok || len(ret.Results) != 1 {
+			continue
+		}
+		switch implied(returnedValue(ret, 0), b) {
+		case 0:
+			return 0
+		case -1:
+			res = -1
+		}
+	}
+	return res
 }
 
 // ---------- COMMIT-LEADER / COUNT-MATCH ----------
